@@ -19,4 +19,8 @@ static inline bool vs_bit() { return vs_nondet_bool() != 0; }
 static inline unsigned vs_range(unsigned n) { unsigned v = 0; for (unsigned k = 1, b = 0; k < n; k <<= 1, ++b) v |= (unsigned)vs_nondet_bool() << b; vs_assume(v < n); return v; }
 #endif
 // CHECK(condition, id); wrap conditions containing top-level commas (template arguments) in parentheses
+#ifdef VS_NO_PROPERTY   /* C20 runs: only the engine's memory-safety / UB obligations are checked */
+#define CHECK(c, id) ((void)(c))
+#else
 #define CHECK(c, id) vs_check((c) ? 1 : 0, id)
+#endif
